@@ -446,6 +446,12 @@ func (rr *RRSIG) Verify(k *DNSKEY, rrset []RR) error {
 			return ErrKey
 		}
 
+		// r and s are each exactly as long as the curve's field (RFC 6605
+		// section 4); the same numbers in any other length are not the signature.
+		if (rr.Algorithm == ECDSAP256SHA256 && len(sigbuf) != 64) || (rr.Algorithm == ECDSAP384SHA384 && len(sigbuf) != 96) {
+			return ErrSig
+		}
+
 		// Split sigbuf into the r and s coordinates
 		r := new(big.Int).SetBytes(sigbuf[:len(sigbuf)/2])
 		s := new(big.Int).SetBytes(sigbuf[len(sigbuf)/2:])
